@@ -138,6 +138,12 @@ class Dumper:
 
 def main():
     job = json.load(sys.stdin)
+    if 'native_code' in job:
+        # a fixed witness program for a named obligation: the snippet sets `result` (a dict with a bool 'violates')
+        scope = {}
+        exec(job['native_code'], scope)  # pylint: disable=exec-used
+        print(json.dumps(scope.get('result', {}), default=str))
+        return
     b = Builder(job['objects'])
     mod = importlib.import_module('bare_script.' + job['module'])
     fn = mod
